@@ -133,6 +133,9 @@ def oracleC06 (c : TCase) : Verdict :=
           let fields : List Hdr := match tryParseResponse 128 w with
             | .ok (some (_, r)) => r.fields
             | _ => hdrsOfWords hs
+          -- the property quantifies over one Content-Length and one Transfer-Encoding field at most
+          if (fields.filter (·.name == "transfer-encoding")).length > 1 || (fields.filter (·.name == "content-length")).length > 1 then
+            { s with expect := none } else
           let fr := framingOf fields
           let verdict := rfcFraming (ver == 0) m status fr
           (match verdict with
